@@ -137,7 +137,7 @@ impl Property for C07 {
     fn assumptions() -> Vec<String> {
         vec![
             "the WIF version byte is not checked on import (not in the statement); to_wif must be the mainnet form".into(),
-            "hybrid (06/07) and compact (05) SEC1 encodings are not generated".into(),
+            "hybrid (06/07) and compact (05) SEC1 tags are generated and must be refused (only 02/03 with 33 bytes and 04 with 65 bytes encode a key here)".into(),
             "a corruption that yields a valid Base58Check string over a payload of the original length (probability 2^-32) is skipped".into(),
         ]
     }
